@@ -12,7 +12,10 @@ import (
 )
 
 func runL2(c Case) *ev.Verdict {
-	v, tr := l2.RunHistory(c.H, l2.Opts{P: "C01", Trusted: true, Batch: c.Batch, Fatal: c.Fatal, FatalKind: c.FatalKind, Net: c.Level == "L3", ObserveEvery: c.Every})
+	v, tr := l2.RunHistory(c.H, l2.Opts{P: "C01", Trusted: true, Batch: c.Batch, Fatal: c.Fatal, FatalKind: c.FatalKind, Net: c.Level == "L3", ObserveEvery: c.Every, NoRefCheck: c.NoRefCheck})
+	if c.NoRefCheck {
+		v.Class("reference-checks-disabled")
+	}
 	if c.Level == "L3" {
 		v.Class("L3-real-grpc")
 	}
@@ -82,6 +85,7 @@ func campaignL2(t *testing.T) {
 			// read back only after every 2nd-5th request
 			c.Every = rapid.IntRange(2, 5).Draw(rt, "every")
 		}
+		c.NoRefCheck = rapid.IntRange(0, 7).Draw(rt, "norefcheck?") == 0
 		if rapid.IntRange(0, 3).Draw(rt, "l3?") == 0 {
 			// the same history over real gRPC (bufconn): transport must not change anything
 			c.Level, c.Fatal, c.FatalKind = "L3", 0, 0
